@@ -20,13 +20,20 @@ PROPERTY = "C08"
 RULE = ("cells = interface x target x step size x max depth x base point x history; inside a cell every slice "
         "level of the catalogue and every start index of the window is executed on the real sampler and its "
         "complete uniform-decision tree is enumerated; non-trivial = at least one start has more than one "
-        "reachable end state")
+        "reachable end state; sibling cells additionally construct / initialise / step a decoy NUTS object on another target of the "
+        "same dimension (same start, step size, depth) in the same process, in every listed interleaving with the sampler under "
+        "test, and require its transition to conform to the reference AND to equal, leaf by leaf, the one made with no sibling")
 BOUND = {"quick": "targets: 1-D Gaussian, correlated 2-D Gaussian, 2-D banana, stiff/soft 2-D Gaussian; eps in {0.05,0.6,1.3,2.1} (stiff: 0.85, 0.95); "
                   "max depth 0,1 (+ depth 2 on one orbit, + depth 3 from the base point of one event orbit per value catalogue); 1 base point; "
-                  "3 slice levels; columns -1..1; log-density offsets -800/+800; integer-valued start given as int array / list / float array",
+                  "3 slice levels; columns -1..1; log-density offsets -800/+800; integer-valued start given as int array / list / float array; "
+                  "sibling interleavings (7 experimental: orders of iA/iB with the decoy's step absent, before cB, before iB or before sB; "
+                  "3 legacy: orders of cA/sA relative to cB) on the correlated Gaussian, eps 0.6, depth 1, decoy = banana + 2.5",
          "thorough": "max depth 0..2 everywhere (+3 for the event orbits of all catalogues and four stiff/banana orbits); 3 base points; 4 slice "
-                     "levels; after-warm-up history; offsets and start representations on four (target, eps, depth) combinations"}
+                     "levels; after-warm-up history; offsets and start representations on four (target, eps, depth) combinations; sibling interleavings on three "
+                     "(target, eps, depth) combinations"}
 ASSUMPTIONS = [
+    "sibling facet: one decoy object, one decoy step (under its own scripted stream with default decisions), decoy target of the same "
+    "dimension with a log-density above the tested target's maximum at the common start; longer sibling histories are not enumerated",
     "the acceptance statistic fed to step-size adaptation is read off H_bar after warmup(1) (first dual-averaging update) for the "
     "experimental interface; it is compared with the mean Metropolis probability over the leaves the reference model integrated in "
     "the last doubling, for depth <= 1 everywhere, depth 2 on the stiff orbits and depth 3 on the event orbits (events counted in "
@@ -110,6 +117,16 @@ INT_BASES = {   # integer-valued start points (one per value catalogue)
     "gauss2c": [([1, -1], [0.8, -0.6]), ([0, 2], [0.2, 1.1]), ([-1, 0], [-0.9, -0.3])],
     "banana2": [([1, 0], [0.7, -0.5]), ([-1, 1], [0.4, 0.9]), ([0, 2], [-1.2, 0.3])],
 }
+
+
+# interleavings of {construct, initialise, step} of a decoy sampler A with the sampler under test B (observed: B's step, last).
+# experimental: all orders of iA/iB with sA absent, before iB, or between the initialisations and sB; legacy has no separate
+# initialisation (sample() does everything), so the orders of cA/sA relative to cB.
+SIB_SCHEDULES = {
+    "exp": ("cA-cB-iA-iB-sB", "cA-cB-iB-iA-sB", "cA-iA-cB-iB-sB", "cA-iA-sA-cB-iB-sB", "cA-cB-iA-iB-sA-sB", "cA-cB-iB-iA-sA-sB", "cA-cB-iA-sA-iB-sB"),
+    "legacy": ("cA-cB-sB", "cA-cB-sA-sB", "cA-sA-cB-sB"),
+}
+SIB_TARGET = {"gauss2c": "banana2", "banana2": "stiff2", "stiff2": "gauss2c", "gauss1": "gauss1"}
 
 
 def _x0(th, rep):
@@ -282,6 +299,12 @@ def cells(tier, seed):
         for rep in ("int", "list", "float"):
             for t, eps, D in ((("gauss2c", 0.6, 1),) if tier == "quick" else (("gauss2c", 0.6, 1), ("gauss2c", 0.6, 2), ("banana2", 0.6, 1), ("gauss1", 0.6, 1))):
                 yield {"iface": iface, "target": t, "eps": eps, "D": D, "base": "int", "hist": "fresh", "cat": k, "tier": tier, "x0rep": rep, "cols": 0}
+        # the process is part of the state: a sibling (decoy) NUTS object on ANOTHER target of the same dimension, at the same
+        # initial point / step size / depth, is constructed (c), initialised (i; experimental only) and stepped (s) in the same
+        # process, interleaved with the sampler under test (B) in every order that ends with B's transition
+        for sched in SIB_SCHEDULES[iface]:
+            for t, eps, D in ((("gauss2c", 0.6, 1),) if tier == "quick" else (("gauss2c", 0.6, 1), ("banana2", 0.6, 2), ("gauss1", 1.3, 1))):
+                yield {"iface": iface, "target": t, "eps": eps, "D": D, "base": 0, "hist": "fresh", "cat": k, "tier": tier, "cols": 0, "sib": sched}
         # depth 3 on the stiff orbits, start at the base point only: doublings whose SECOND half stops after integrating fewer
         # leaves than the first (U-turn inside the second half's first quarter) - matters for the acceptance statistic
         if iface == "exp":
@@ -324,6 +347,8 @@ def eval_cell(cell):
         facet += ",logd-offset=%s" % ("large-negative" if cell["off"] < 0 else "large-positive")
     if cell.get("x0rep"):
         facet += ",x0=%s" % cell["x0rep"]
+    if cell.get("sib"):
+        facet += ",sibling=%s" % cell["sib"]
     if cell["hist"] == "warm":
         s = cuqi.experimental.mcmc.NUTS(tgt.obj, initial_point=np.array(th0), max_depth=D, step_size=eps)
         st = Stream(normal=lambda n, i: refs.dyadic_vec(n, i + k, scale=0.25), exponential=lambda rec, i: [0.3, 0.7, 0.2][i % 3], log_uniform="exponential")
@@ -420,7 +445,49 @@ def run_start(cell, tgt, orb, kk, ell, D, eps, saved, res, comp, facet, lo, hi, 
             res.count("numerically_unstable_starts_skipped")
             return None, False
 
+    def run_sib(d):
+        """B = sampler under test, A = decoy on another target of the same dimension (same start, step size, depth)."""
+        tgt.calls = []
+        st = Stream(normal=[r_k], exponential=[e_ans], decisions=d, log_uniform="exponential")
+        dec = Tgt(SIB_TARGET[cell["target"]], (cell["cat"] + 1) % 3, offset=2.5)
+        smp, out = {}, None
+        for op in cell["sib"].split("-"):
+            who = op[1]
+            if op[0] == "c":
+                obj = tgt.obj if who == "B" else dec.obj
+                if iface == "exp":
+                    smp[who] = cuqi.experimental.mcmc.NUTS(obj, initial_point=np.array(th_k), max_depth=D, step_size=cell["eps"])
+                else:
+                    smp[who] = cuqi.sampler.NUTS(obj, x0=np.array(th_k), max_depth=D, adapt_step_size=eps)
+            elif op[0] == "i":
+                smp[who].initialize()
+            elif who == "A":
+                sa = Stream(normal=lambda n, i: refs.dyadic_vec(n, i + cell["cat"], scale=0.5), exponential=lambda rec, i: 0.3, log_uniform="exponential")
+                with sa.installed():
+                    smp["A"].sample(1 if iface == "exp" else 2)
+            else:
+                s = smp["B"]
+                if iface == "exp":
+                    tgt.calls = []
+                    with st.installed():
+                        s.sample(1)
+                    state = s.get_state()["state"]
+                    out = {"x": np.array(s.current_point, float), "logd": float(np.asarray(state["current_target_logd"]).ravel()[0]),
+                           "grad": np.array(state["current_target_grad"], float), "calls": list(tgt.calls),
+                           "eps_used": float(s.epsilon_list[-1])}
+                else:
+                    with st.installed():
+                        r = s.sample(2)
+                    out = {"x": np.array(r.samples[:, 1], float), "logd": float(r.loglike_eval[1]), "grad": None,
+                           "calls": list(tgt.calls)[1:], "eps_used": float(s.epsilon_list[-1])}
+        return out
+
     def run(d):
+        if cell.get("sib"):
+            return run_sib(d)
+        return run_alone(d)
+
+    def run_alone(d):
         tgt.calls = []
         st = Stream(normal=[r_k], exponential=[e_ans], decisions=d, log_uniform="exponential")
         x0 = _x0(th_k, cell["x0rep"]) if cell.get("x0rep") else np.array(th_k)
@@ -456,6 +523,29 @@ def run_start(cell, tgt, orb, kk, ell, D, eps, saved, res, comp, facet, lo, hi, 
         res.outcomes.add("raised:%s" % type(e).__name__)
         return None, False
     res.transitions += len(leaves)
+    if cell.get("sib"):
+        # differential oracle: the transition of B must not depend on the presence / history of the sibling
+        try:
+            alone = explore(run_alone, max_leaves=400000)
+        except HarnessError:
+            raise
+        except Exception:
+            alone = None
+        if alone is not None:
+            res.transitions += len(alone)
+            ma = {tuple(d.choices): (d, o) for d, o in alone}
+            mb = {tuple(d.choices): (d, o) for d, o in leaves}
+            same = set(ma) == set(mb)
+            for key in (ma if same else ()):
+                (da, oa), (db, ob) = ma[key], mb[key]
+                same = same and close(da.prob, db.prob, 1e-12) and close(oa["x"], ob["x"], 1e-13) and close(oa["logd"], ob["logd"], 1e-13) \
+                    and (oa["grad"] is None or close(oa["grad"], ob["grad"], 1e-13)) and len(oa["calls"]) == len(ob["calls"])
+            res.evaluations += 1
+            res.outcomes.add("sibling-differential=%s" % ("same" if same else "differs"))
+            if not same:
+                res.fail("C08|%s|sibling-dependence|%s" % (comp, facet), "the transition (decision tree, probabilities, end state or caches) of a "
+                         "sampler differs from the one it makes with no sibling sampler in the process: %d leaves vs %d alone"
+                         % (len(leaves), len(alone)), focus={"level": ell, "start": kk})
     row = {}
     for d, o in leaves:
         res.traces += 1
